@@ -140,17 +140,35 @@ Definition better_n (h : plat) (target prev : plat) : bool :=
   end end end.
 
 (* descriptor.go: the platform part of DescriptorListSearch.  An entry is [None] when the
-   descriptor has no platform.  State = (found index, retPlat).  Returns the index. *)
+   descriptor has no platform.  State = (found index, retPlat).  Returns the index.  The first
+   compatible entry is taken as it is; later entries replace it when Better says so. *)
 Fixpoint search_loop (h : plat) (dl : list (option plat)) (i : nat) (ret : option nat) (retPlat : plat) : option nat :=
   match dl with
   | [] => ret
   | None :: dl' => search_loop h dl' (S i) ret retPlat
   | Some d :: dl' =>
-      if better_n h d retPlat then search_loop h dl' (S i) (Some i) d
-      else search_loop h dl' (S i) ret retPlat
+      match ret with
+      | None => if compatible h d then search_loop h dl' (S i) (Some i) d
+                else search_loop h dl' (S i) ret retPlat
+      | Some _ => if better_n h d retPlat then search_loop h dl' (S i) (Some i) d
+                  else search_loop h dl' (S i) ret retPlat
+      end
   end.
 Definition search (host : plat) (dl : list (option plat)) : option nat :=
   search_loop (normalize host) dl 0 None zero_plat.
+
+(* the scan as it was before the repair (fix: commit in /repo, known-findings.txt): every entry,
+   the first included, had to be Better than the previous best, which starts as the zero platform *)
+Fixpoint search_loop_old (h : plat) (dl : list (option plat)) (i : nat) (ret : option nat) (retPlat : plat) : option nat :=
+  match dl with
+  | [] => ret
+  | None :: dl' => search_loop_old h dl' (S i) ret retPlat
+  | Some d :: dl' =>
+      if better_n h d retPlat then search_loop_old h dl' (S i) (Some i) d
+      else search_loop_old h dl' (S i) ret retPlat
+  end.
+Definition search_old (host : plat) (dl : list (option plat)) : option nat :=
+  search_loop_old (normalize host) dl 0 None zero_plat.
 
 (* ---- Parse / String ---- *)
 Definition part_char (c : ascii) : bool :=
